@@ -383,7 +383,7 @@ func c30AllForms(maxLen int) []string {
 }
 
 func TestVerif_C30(t *testing.T) {
-	rec := kit.Start("C30", "exploration", "structured cells (stored-password forms C/H/X of length 1..3 in table order) x target entry x session plugin {none, mysql_native_password, caching_sha2_password} x response kind (20 kinds: correct / bit flipped / truncated / extended / padded to 32 / wrong salt / proof of the stored text / other user's / empty / random / responses whose hash agrees with the stored hash on a 2-byte prefix or suffix), each instantiated with random 20-byte salts and random ASCII or multi-byte passwords of 1..64 bytes; non-trivial = distinct (forms, target form, plugin, kind, expected outcome) cells whose response was derived from a configured password")
+	rec := kit.Start("C30", "exploration", "structured cells (stored-password forms C/H/X of length 1..3 in table order) x target entry x session plugin {none, mysql_native_password, caching_sha2_password} x response kind (20 kinds: correct / bit flipped / truncated / extended / padded to 32 / wrong salt / proof of the stored text / other user's / empty / random / responses whose hash agrees with the stored hash on a 2-byte prefix or suffix), each instantiated with random 20-byte salts and random ASCII or multi-byte passwords of 1..64 bytes; non-trivial = distinct (forms, target form, plugin, kind, expected outcome) cells whose response was derived from a configured password; plus the wire part: handshake responses parsed by the real readHandshakeResponse / Session.Handshake over in-memory connections while other connections read small packets from the shared buffer pool (interleaved and concurrent schedules)")
 	defer rec.Finish(t)
 	if err := mgInit(); err != nil {
 		t.Fatal(err)
@@ -442,6 +442,23 @@ func TestVerif_C30(t *testing.T) {
 	}
 
 	if p := kit.ReplayPath(); p != "" {
+		var wc c30WireCase
+		if kit.LoadReplay(p, &wc) == nil && wc.Wire {
+			_, um := c30WireUsers()
+			current, _, _ := rig.m.switchIndex.Get()
+			rig.m.users[current] = um
+			srv := &Server{manager: rig.m, ServerVersion: "5.7.25-gaea", ServerConfig: &models.Proxy{}}
+			if wc.JunkLen == 0 {
+				wc.JunkLen = 64
+			}
+			clause, detail := c30RunInterleaved(rig.m, srv, wc)
+			rec.Eval(1)
+			fmt.Printf("replay (interleaved schedule): clause=%q %s\n", clause, detail)
+			if clause != "" {
+				rec.Violation(fmt.Sprintf("wire|%s|schedule=interleaved|resp=%s", clause, wc.Kind), detail, wc)
+			}
+			return
+		}
 		var c c30Case
 		if err := kit.LoadReplay(p, &c); err != nil {
 			t.Fatal(err)
@@ -486,6 +503,7 @@ func TestVerif_C30(t *testing.T) {
 			}
 		}
 	}
+	c30WirePart(rec, rig.m)
 	rec.Set("cells", map[string]interface{}{"forms": len(c30AllForms(3)), "plugins": len(plugins), "kinds": len(c30Kinds), "instances_per_cell": reps})
 	if rec.CounterValue("expected.accept") == 0 || rec.CounterValue("observed.accept") == 0 {
 		rec.Inconclusive("no handshake was expected to be accepted and accepted: the decision path was not exercised")
